@@ -1,4 +1,5 @@
 mod c03;
+mod c26;
 mod checks;
 mod decode;
 mod exec;
@@ -300,6 +301,9 @@ pub fn run_seed_of(verif_seed: u64, id: &str, run_no: u64) -> u64 {
 
 fn gen_for(def: &CheckDef, verif_seed: u64, run_no: u64) -> Result<Scenario, String> {
     let run_seed = run_seed_of(verif_seed, def.id, run_no);
+    if def.id == "C26" {
+        return c26::gen_c26(run_seed);
+    }
     if def.profiles.is_empty() {
         return execcheck::gen_exec_scenario(def.id, run_seed);
     }
@@ -563,7 +567,7 @@ fn write_evidence(
             "op_kinds_applied": st.op_kinds,
             "hash_seeds_per_scenario": hs,
             "hash_maps_created": st.hash_maps,
-            "profiles": if def.profiles.is_empty() { vec![execcheck::exec_profile(id).name] } else { def.profiles.iter().map(|p| p.name).collect::<Vec<_>>() },
+            "profiles": if id == "C26" { vec!["component"] } else if def.profiles.is_empty() { vec![execcheck::exec_profile(id).name] } else { def.profiles.iter().map(|p| p.name).collect::<Vec<_>>() },
             "components": {
                 "real": ["wirm (all of /repo/src built from the current working tree with --cfg wirm_verif)", "wasmparser 0.235 / wasm-encoder 0.235 as linked by /repo", "kernel file errors for emit_wasm"],
                 "stub": ["hash keys (seeded seam)", "log sink (capturing logger)", "panic hook (silent, recording)"]
@@ -571,7 +575,7 @@ fn write_evidence(
             "known_findings_matched": known,
             "cross_property_observations": st.cross,
             "note": note,
-            "executed": if def.profiles.is_empty() { execcheck::stats_json() } else { serde_json::Value::Null },
+            "executed": if def.profiles.is_empty() && id != "C26" { execcheck::stats_json() } else { serde_json::Value::Null },
         },
         "assumptions": [
             "wasmparser decodes and validates correctly",
